@@ -484,6 +484,7 @@ func (in *Inst) RecordTxn(rec *Recorder, aops []abs.AOp, results []*ovsdb.Operat
 
 // LoadFrom fills a fresh instance with the rows of dump in one transaction.
 func (in *Inst) LoadFrom(rec *Recorder, from int, dump map[string]interface{}) error {
+	failed := ""
 	var aops []abs.AOp
 	tables := []string{}
 	for t := range dump {
@@ -520,13 +521,15 @@ func (in *Inst) LoadFrom(rec *Recorder, from int, dump map[string]interface{}) e
 			}
 			ops = append(ops, o)
 		}
+		// a reload that the engine refuses is an observation (the contents were legal where they came
+		// from): the event then shows a database that differs from its source
 		results, err := in.Transact(ops)
 		if err != nil {
-			return err
+			failed = err.Error()
 		}
 		for _, r := range results {
-			if r != nil && r.Error != "" {
-				return fmt.Errorf("reload transaction failed: %s %s", r.Error, r.Details)
+			if r != nil && r.Error != "" && failed == "" {
+				failed = fmt.Sprintf("reload transaction failed: %s %s", r.Error, r.Details)
 			}
 		}
 	}
@@ -534,7 +537,7 @@ func (in *Inst) LoadFrom(rec *Recorder, from int, dump map[string]interface{}) e
 	if err != nil {
 		return err
 	}
-	return rec.Emit(map[string]interface{}{"ev": "load", "db": in.ID, "from": from, "post": post, "refs": refs})
+	return rec.Emit(map[string]interface{}{"ev": "load", "db": in.ID, "from": from, "post": post, "refs": refs, "failed": failed})
 }
 
 // RandomMonitorReq draws a monitor request over the schema.
